@@ -236,7 +236,10 @@ class Ctx:
 
     # -- program application
     def operand(self, rel, operand):
-        if operand == ("self",):
+        if operand[0] == "self":
+            # the current relation itself, optionally with further operations applied (shared sub-tree object)
+            for op in operand[1:]:
+                rel = self.apply(rel, op)
             return rel
         return self.build(operand)
 
@@ -291,6 +294,15 @@ class Ctx:
         if k == "join":
             other = self.operand(rel, op[1])
             pred = None if op[2] is None else A.to_lib(op[2])
+            if len(op) > 4:
+                # explicit, pre-resolved common columns (public Join(min_columns=, max_columns=) API)
+                from lsst.daf.relation import Join, Predicate
+
+                cc = A.tags(op[4])
+                j = Join(pred if pred is not None else Predicate.literal(True), min_columns=cc, max_columns=cc)
+                if op[3]:
+                    return j.partial(rel).apply(other, **flags)
+                return j.partial(other).apply(rel, **flags)
             if flags:
                 # explicit preferred-engine options: the public PartialJoin.apply route (Relation.join offers
                 # only backtrack/transfer and always prefers the fixed operand's engine)
